@@ -6,6 +6,8 @@ ASSUME = [
     "'ahead' = higher grid index (head of the bunch), following main's bucket ordering",
     "free space: Z = Z0*Gamma(2/3)/3^(1/3)*e^{i pi/6}*h^(1/3) at 1e-3 (the repository rounds the constant to four digits); resistive wall: (1-i)*L/(2 pi b)*sqrt(omega*mu/(2 sigma)) with mu0 = 4 pi 1e-7 at 1e-3; collimator Z0/pi*ln(outer/inner) at 1e-5",
     "parallel plates vs free space with n_c = sqrt(2/3)(pi R/g)^(3/2): | |Zpp|/|Zfs| - 1 | <= 1% for f >= 5 f_c, Re Zpp/Re Zfs <= 1e-3 for f <= f_c/4",
+    "program part: free-space CSR, resistive wall and collimator impedances as stored by real runs (/Impedance/data with its Ohm factor over /Info/AxisValues_f in Hertz) against the same formulas at 2e-3, with the bending radius as given (below and above c/(2 pi f_rev)) or not given",
+    "repetition: a parallel-plates request repeated after another request with the same length, gap and harmonic step but another bending radius returns bit-identical samples",
     "causality: Gaussian probe (sigma 3 cells) through ElectricField::wakePotential; wake energy beyond 4 sigma on the wrong side at most 1/50 of that on the right side",
 ]
 
@@ -21,6 +23,8 @@ def run(ctx):
     core.run_harness(ctx, "c16", 2000 if th else 128, args=["--mode", "causal"], xdg=xdg)
     core.run_harness(ctx, "c16", 800 if th else 80, variant="asan", args=["--mode", "models"])
     core.run_harness(ctx, "c16", 640 if th else 64, variant="asan", args=["--mode", "factory"])
-    ctx.min_events = {"samples_checked": 50000, "factory_calls": 600, "factory_nothing_selected": 20, "probes": 100,
+    ctx.min_events = {"pp_requests_repeated_after_a_similar_request": 50, "samples_checked": 50000, "factory_calls": 600, "factory_nothing_selected": 20, "probes": 100,
                       "pp_samples_above_5fc": 500, "pp_samples_below_fc4": 40,
                       "model.freespace": 100, "model.resistivewall": 100, "model.collimator": 100, "model.parallelplates": 100}
+    from checks import c16_prog
+    c16_prog.run(ctx)
